@@ -236,7 +236,14 @@ def main(tier: str, only: list[dict] | None = None) -> int:
     apalache_batches = apalache_ok = 0
     timeouts = 0
 
+    inconclusive: list[str] = []
+
     def report(o: dict, how: str, detail: Any) -> None:
+        if o.get("dropped_guards"):
+            # the obligation was checked WITHOUT a data-dependent guard that
+            # the code has: its failure says nothing about the code
+            inconclusive.append(o["id"])
+            return
         run.violation(o["id"],
                       f"{o['id']}: access out of bounds possible ({how}): {o['text']}; "
                       f"counterexample {detail}", record=_rec(by_id, o["id"]),
@@ -294,6 +301,9 @@ def main(tier: str, only: list[dict] | None = None) -> int:
         "apalache_batches": apalache_batches, "apalache_batches_ok": apalache_ok,
         "apalache_timeouts": timeouts, "apalache_wall_s": round(apalache_wall, 1),
         "unbounded": timeouts == 0,
+        "obligations_with_dropped_data_guards": sum(
+            1 for o in sym_obl + static_obl if o.get("dropped_guards")),
+        "inconclusive_because_of_dropped_guard": len(inconclusive),
         "exhaustive": False,
     })
     for o in (sym_obl[:2] + static_obl[:1]):
